@@ -1,11 +1,12 @@
 package main
 
 import (
-	"runtime/pprof"
 	"encoding/json"
 	"flag"
 	"fmt"
 	"os"
+	"runtime/debug"
+	"runtime/pprof"
 	"sort"
 	"strings"
 	"sync"
@@ -22,6 +23,11 @@ func main() {
 		return
 	}
 	startHelper()
+	// soft heap limit: the collector works harder above it instead of letting the heap double (peak RSS of the
+	// largest properties would otherwise reach 25 GB); GOMEMLIMIT in the environment overrides it
+	if os.Getenv("GOMEMLIMIT") == "" {
+		debug.SetMemoryLimit(12 << 30)
+	}
 	if pf := os.Getenv("GOVC_PROFILE"); pf != "" {
 		f, _ := os.Create(pf)
 		pprof.StartCPUProfile(f)
@@ -139,6 +145,7 @@ func (P *Prog) matchKeys(pat string) []string {
 func (P *Prog) VerifyAll(keys []string, opts VerifyOpts, solv *Solvers) []*FuncResult {
 	results := make([]*FuncResult, len(keys))
 	var all []*Obligation
+	var est int64 // estimated size of the query texts of the pending chunk
 	for i, k := range keys {
 		c := P.ContractFor(k)
 		if c == nil {
@@ -148,9 +155,36 @@ func (P *Prog) VerifyAll(keys []string, opts VerifyOpts, solv *Solvers) []*FuncR
 		opts2 := opts
 		results[i] = P.verifyWith(k, c, opts2, solv)
 		all = append(all, results[i].Obls...)
+		for _, o := range results[i].Obls {
+			est += int64(len(o.Goal.S)) + 20000
+			for _, h := range o.Hyps {
+				est += int64(len(h.S))
+			}
+		}
+		// solve in chunks of whole functions so that the query texts of a large property are never all in
+		// memory at once (the texts of discharged obligations are dropped, short ones kept as evidence samples)
+		if len(all) >= 45000 || est >= 6e9 {
+			solveAndRelease(all, solv)
+			all, est = nil, 0
+		}
+	}
+	solveAndRelease(all, solv)
+	return results
+}
+
+func solveAndRelease(all []*Obligation, solv *Solvers) {
+	if len(all) == 0 {
+		return
 	}
 	SolveAll(all, solv)
-	return results
+	for _, o := range all {
+		if o.Result == "unsat" && !o.Canary && len(o.Query) >= 6000 {
+			o.Query = ""
+		}
+		if o.Canary && o.Result != "unsat" {
+			o.Query = "" // a satisfiable probe is the expected outcome; its text is not needed again
+		}
+	}
 }
 
 // KnownFailing reports whether an obligation name is listed as a known finding (set by cmdCheck).
